@@ -167,11 +167,44 @@ where
             rank_out: res_infos.rank(),
         };
 
-        self.blind_rotation_execute_tmp_bytes(block_size, extension_factor, res_infos, &cbt_infos.brk_infos())
-            .max(self.glwe_trace_tmp_bytes(res_infos, res_infos, &cbt_infos.atk_infos()))
-            .max(self.ggsw_from_gglwe_tmp_bytes(res_infos, &cbt_infos.tsk_infos()))
+        let brk_infos = cbt_infos.brk_infos();
+        let atk_infos = cbt_infos.atk_infos();
+        let tsk_infos = cbt_infos.tsk_infos();
+
+        let lvl_0: usize = self
+            .blind_rotation_execute_tmp_bytes(block_size, extension_factor, res_infos, &brk_infos)
+            .max(self.glwe_trace_tmp_bytes(res_infos, res_infos, &atk_infos))
+            .max(self.ggsw_from_gglwe_tmp_bytes(res_infos, &tsk_infos))
             + GLWE::<Vec<u8>>::bytes_of_from_infos(res_infos)
-            + GGLWE::bytes_of_from_infos(&gglwe_infos)
+            + GGLWE::bytes_of_from_infos(&gglwe_infos);
+
+        // The phases of `circuit_bootstrap_core` with the layouts they run on: the accumulator has the
+        // precision of the blind-rotation key, in the key's base and in the base of the automorphism keys.
+        let glwe_brk_layout = GLWELayout {
+            n: res_infos.n(),
+            base2k: brk_infos.base2k(),
+            k: brk_infos.max_k(),
+            rank: brk_infos.rank(),
+        };
+        let glwe_atk_layout = GLWELayout {
+            n: res_infos.n(),
+            base2k: atk_infos.base2k(),
+            k: brk_infos.max_k(),
+            rank: brk_infos.rank(),
+        };
+        let glwe_atk_bytes: usize = GLWE::<Vec<u8>>::bytes_of_from_infos(&glwe_atk_layout);
+        let lvl_1_rotation: usize = glwe_atk_bytes
+            + GLWE::<Vec<u8>>::bytes_of_from_infos(&glwe_brk_layout)
+            + self
+                .blind_rotation_execute_tmp_bytes(block_size, extension_factor, &glwe_brk_layout, &brk_infos)
+                .max(self.glwe_normalize_tmp_bytes());
+        let lvl_1_trace: usize = glwe_atk_bytes
+            + self
+                .glwe_trace_tmp_bytes(res_infos, &glwe_atk_layout, &atk_infos)
+                .max(self.glwe_rotate_tmp_bytes());
+        let lvl_1_expand: usize = self.ggsw_expand_rows_tmp_bytes(res_infos, &tsk_infos);
+
+        lvl_0.max(lvl_1_rotation).max(lvl_1_trace).max(lvl_1_expand)
     }
 
     fn circuit_bootstrapping_execute_to_constant<R, L, D>(
